@@ -436,7 +436,7 @@ func Run(c *core.Ctx) {
 	// gossip run to quiescence after every request; plus overlapping requests on two brokers
 	num := 12
 	if !c.Quick() {
-		num = 150
+		num = 50
 	}
 	what := "at gossip quiescence the cluster does not behave like the one broker of the session specification (deliveries, notifications, routes)"
 	session.ClusterStage(c, what, 2, false, []string{"pubsub", "presence", "ending"}, num, 14)
@@ -470,7 +470,7 @@ func Explore(c *core.Ctx) int64 {
 	}
 	confs := []conf{{[]string{"b1", "b2"}, 3, 1, 25, 40, 0, false, false}, {[]string{"b1", "b2", "b3"}, 3, 1, 25, 70, 0, false, false}, {[]string{"b1", "b2"}, 4, 1, 30, 60, 1, false, false}, {[]string{"b1", "b2"}, 4, 1, 20, 60, 1, true, false}, {[]string{"b1", "b2", "b3", "b4"}, 4, 3, 30, 110, 0, false, true}}
 	if !c.Quick() {
-		confs = []conf{{[]string{"b1", "b2"}, 4, 2, 300, 60, 0, false, false}, {[]string{"b1", "b2", "b3"}, 4, 1, 400, 90, 0, false, false}, {[]string{"b1", "b2"}, 4, 1, 300, 70, 2, false, false}, {[]string{"b1", "b2", "b3"}, 3, 1, 200, 100, 1, false, false}, {[]string{"b1", "b2"}, 4, 1, 200, 70, 2, true, false}, {[]string{"b1", "b2", "b3"}, 3, 1, 150, 100, 1, true, false}, {[]string{"b1", "b2", "b3", "b4"}, 5, 4, 400, 140, 0, false, true}}
+		confs = []conf{{[]string{"b1", "b2"}, 4, 2, 120, 60, 0, false, false}, {[]string{"b1", "b2", "b3"}, 4, 1, 150, 90, 0, false, false}, {[]string{"b1", "b2"}, 4, 1, 120, 70, 2, false, false}, {[]string{"b1", "b2", "b3"}, 3, 1, 80, 100, 1, false, false}, {[]string{"b1", "b2"}, 4, 1, 80, 70, 2, true, false}, {[]string{"b1", "b2", "b3"}, 3, 1, 60, 100, 1, true, false}, {[]string{"b1", "b2", "b3", "b4"}, 5, 4, 150, 140, 0, false, true}}
 	}
 	var nontrivial int64
 	for ci, k := range confs {
